@@ -98,6 +98,7 @@ func ringIntersectsPoint(ring Ring, point Point, allowOnEdge bool) ringResult {
 
 func ringContainsSegment(ring Ring, seg Segment, allowOnEdge bool) bool {
 	if !ring.Rect().ContainsPoint(seg.A) || !ring.Rect().ContainsPoint(seg.B) { // Optimization
+		verifTrace("RCS", "bbox", ring, seg, allowOnEdge, false)
 		return false
 	}
 
@@ -105,18 +106,22 @@ func ringContainsSegment(ring Ring, seg Segment, allowOnEdge bool) bool {
 	resA := ringContainsPoint(ring, seg.A, allowOnEdge)
 	if !resA.hit {
 		// seg A is not inside ring
+		verifTrace("RCS", "A-out", ring, seg, allowOnEdge, false)
 		return false
 	}
 	if seg.B == seg.A {
+		verifTrace("RCS", "zero-length", ring, seg, allowOnEdge, true)
 		return true
 	}
 	resB := ringContainsPoint(ring, seg.B, allowOnEdge)
 	if !resB.hit {
 		// seg B is not inside ring
+		verifTrace("RCS", "B-out", ring, seg, allowOnEdge, false)
 		return false
 	}
 	if ring.Convex() {
 		// ring is convex so the segment must be contained
+		verifTrace("RCS", "convex", ring, seg, allowOnEdge, true)
 		return true
 	}
 
@@ -132,6 +137,7 @@ func ringContainsSegment(ring Ring, seg Segment, allowOnEdge bool) bool {
 					// case (3)
 					// seg A and B share the same ring segment, so it must be
 					// on the inside.
+					verifTrace("RCS", "case3", ring, seg, allowOnEdge, true)
 					return true
 				}
 				// case (1)
@@ -148,6 +154,7 @@ func ringContainsSegment(ring Ring, seg Segment, allowOnEdge bool) bool {
 					rSegB.A == seg.A || rSegB.B == seg.A ||
 					rSegA.A == seg.B || rSegA.B == seg.B ||
 					rSegB.A == seg.B || rSegB.B == seg.B {
+					verifTrace("RCS", "case1-shared", ring, seg, allowOnEdge, true)
 					return true
 				}
 
@@ -166,6 +173,7 @@ func ringContainsSegment(ring Ring, seg Segment, allowOnEdge bool) bool {
 				clockwise := cwc > 0
 				if clockwise != ring.Clockwise() {
 					// -- on the outside
+					verifTrace("RCS", "case1-outside", ring, seg, allowOnEdge, false)
 					return false
 				}
 				// the passover space is on the inside of the ring.
@@ -181,6 +189,7 @@ func ringContainsSegment(ring Ring, seg Segment, allowOnEdge bool) bool {
 					}
 					return true
 				})
+				verifTrace("RCS", "case1-search", ring, seg, allowOnEdge, !intersects)
 				return !intersects
 			}
 			// case (4)
@@ -196,6 +205,7 @@ func ringContainsSegment(ring Ring, seg Segment, allowOnEdge bool) bool {
 				}
 				return true
 			})
+			verifTrace("RCS", "case4", ring, seg, allowOnEdge, !intersects)
 			return !intersects
 		} else if resB.idx != -1 {
 			// case (2)
@@ -211,6 +221,7 @@ func ringContainsSegment(ring Ring, seg Segment, allowOnEdge bool) bool {
 				}
 				return true
 			})
+			verifTrace("RCS", "case2", ring, seg, allowOnEdge, !intersects)
 			return !intersects
 		}
 		// case (5) (15)
@@ -224,6 +235,7 @@ func ringContainsSegment(ring Ring, seg Segment, allowOnEdge bool) bool {
 			}
 			return true
 		})
+		verifTrace("RCS", "case5", ring, seg, allowOnEdge, !intersects)
 		return !intersects
 	}
 
@@ -239,19 +251,23 @@ func ringContainsSegment(ring Ring, seg Segment, allowOnEdge bool) bool {
 		}
 		return true
 	})
+	verifTrace("RCS", "noedge", ring, seg, allowOnEdge, !intersects)
 	return !intersects
 }
 
 // ringIntersectsSegment detect if the segment intersects the ring
 func ringIntersectsSegment(ring Ring, seg Segment, allowOnEdge bool) bool {
 	if !seg.Rect().IntersectsRect(ring.Rect()) { // Optimization
+		verifTrace("RIS", "bbox", ring, seg, allowOnEdge, false)
 		return false
 	}
 	// Quick check that either point is inside of the ring
 	if ringContainsPoint(ring, seg.A, allowOnEdge).hit {
+		verifTrace("RIS", "A-in", ring, seg, allowOnEdge, true)
 		return true
 	}
 	if ringContainsPoint(ring, seg.B, allowOnEdge).hit {
+		verifTrace("RIS", "B-in", ring, seg, allowOnEdge, true)
 		return true
 	}
 	// Neither point A or B is inside the the ring. It's possible that both
@@ -286,6 +302,7 @@ func ringIntersectsSegment(ring Ring, seg Segment, allowOnEdge bool) bool {
 		}
 		return count < 2
 	})
+	verifTrace("RIS", "count", ring, seg, allowOnEdge, count >= 2)
 	return count >= 2
 }
 
